@@ -46,6 +46,11 @@ Proof.
     + destruct (back_refines nonfresh st HI Hs) as (s & E & _). congruence.
 Qed.
 
+(* positions before begin() (and end() - d on a vector with fewer than d elements) are refused, nothing changes *)
+Lemma positions_before_begin_raise : forall st,
+  erase_before st = (st, Raised) /\ emplace_before st = (st, Raised) /\ insert_range_before st = (st, Raised).
+Proof. intros st. unfold erase_before, emplace_before, insert_range_before. destruct (cap st <=? size st); auto. Qed.
+
 Lemma capacity_fixed : forall p o P P' r, PAll WInv P -> pstep p o P = (P', r) ->
   forall k st st', target o <> Some k -> pget P k = Some st -> pget P' k = Some st' -> cap st' = cap st.
 Proof. exact pstep_capacity. Qed.
@@ -290,7 +295,8 @@ Definition writes (o : op) : list nat :=
   | ONew i _ | ONewFrom i _ _ | ONewList i _ | OCopy i _ | OAssign i _ | OListAssign i _ | OAt i _ | OGet i _
   | OEmplace i _ _ | OEmplaceBack i _ | OInsert i _ | OInsertMove i _ | OPushBack i _
   | OInsertRange i _ _ | OInsertList i _ _ | OPushBackRange i _ | OPop i | OErase i _ | ODestroy i
-  | OEmplaceAt i _ _ | OEmplaceBackAt i _ | OInsertAt i _ | OPushBackAt i _ | OInsertSelfRange i _ _ _ | OPushBackSelfRange i _ _ => [i]
+  | OEmplaceAt i _ _ | OEmplaceBackAt i _ | OInsertAt i _ | OPushBackAt i _ | OInsertSelfRange i _ _ _ | OPushBackSelfRange i _ _
+  | OEraseBefore i _ | OEmplaceBefore i _ _ | OInsertRangeBefore i _ _ => [i]
   end.
 
 Lemma on_obj_frame P i f P' o k : on_obj P i f = (P', o) -> k <> i -> nth_error P' k = nth_error P k.
